@@ -22,6 +22,9 @@ type c03Case struct {
 	Stmts      []model.Stmt `json:"stmts"`
 	VictimPick []int        `json:"victim_pick"` // which eligible statements are victims (indexes modulo)
 	After      []c03After   `json:"after"`       // follow-up work on every recovered image
+	// WrapLog: crash points before every PHYSICAL write to the log (the log file is wrapped,
+	// hook wal.fwrite) instead of before the logical write in wal.flush (hook wal.write)
+	WrapLog bool `json:"wrap_log,omitempty"`
 	// RestartBefore[i] = "shutdown" | "crash": the process is restarted (start-up
 	// recovery included) right before statement i
 	RestartBefore map[int]string `json:"restart_before,omitempty"`
@@ -81,6 +84,7 @@ func c03Gen(rt *rapid.T) c03Case {
 		c.Stmts = append(c.Stmts, gen.History(rt, tail, db)...)
 	}
 	c.VictimPick = rapid.SliceOfN(rapid.IntRange(0, 1000), 1, 3).Draw(rt, "victims")
+	c.WrapLog = rapid.Bool().Draw(rt, "wraplog")
 	n := rapid.IntRange(1, 3).Draw(rt, "nafter")
 	for i := 0; i < n; i++ {
 		c.After = append(c.After, c03After{Rows: rapid.SampledFrom([]int{1, 2, 5, 9, 10}).Draw(rt, "after_rows"), Null: rapid.Bool().Draw(rt, "after_null")})
@@ -132,6 +136,8 @@ func c03Run(c c03Case, st *vlib.Stats) string {
 	os.RemoveAll(imgRoot)
 	defer os.RemoveAll(imgRoot)
 	defer func() { storage.VerifHook = nil }()
+	storage.VerifWrapWAL = c.WrapLog
+	defer func() { storage.VerifWrapWAL = false }()
 	eng, err := mk.Start(dir)
 	if err == nil {
 		if err = CreateDatabases(eng); err == nil {
@@ -217,9 +223,13 @@ func c03Run(c c03Case, st *vlib.Stats) string {
 		var images []c03Image
 		var hookErr error
 		storage.VerifHook = func(point string, arg uint64) {
-			// every PHYSICAL write to the log (wal.fwrite, announced by the wrapped log file itself)
-			// and every fsync; the logical wal.write point of the flush routine is not needed
-			if point != "wal.fwrite" && point != "wal.sync" {
+			// every write to the log - the physical ones (wal.fwrite, announced by the wrapped log
+			// file itself) or the logical one in wal.flush - and every fsync
+			writePoint := "wal.write"
+			if c.WrapLog {
+				writePoint = "wal.fwrite"
+			}
+			if point != writePoint && point != "wal.sync" {
 				return
 			}
 			id := len(images)
